@@ -84,6 +84,7 @@ func goEnv(goarch string) []string {
 // Load loads the ten packages from repoDir's working tree. overlay maps absolute file names to replacement
 // contents (used for self-validation variants only).
 func Load(repoDir, goarch string, overlay map[string][]byte) (p *Prog, err error) {
+	resetClassifierMemo()
 	return loadRound(repoDir, goarch, overlay, 0, nil)
 }
 
